@@ -994,6 +994,29 @@ func (o *ovsdbClient) monitor(ctx context.Context, cookie MonitorCookie, reconne
 	var err error
 	var tableUpdates interface{}
 
+	// Notifications for this monitor can be dispatched before its reply has
+	// been applied below. While connecting, updates are deferred already; for
+	// an additional monitor on an established connection defer them from
+	// here on, and apply them once the initial contents are in the cache.
+	db.cacheMutex.Lock()
+	deferring := !db.deferUpdates
+	db.deferUpdates = true
+	db.cacheMutex.Unlock()
+	if deferring {
+		defer func() {
+			db.cacheMutex.Lock()
+			defer db.cacheMutex.Unlock()
+			if !db.deferUpdates {
+				// the reply and the deferred updates have been applied
+				return
+			}
+			// setting up the monitor failed: the cache is as before, carry on
+			if err := o.applyDeferredUpdates(db, ""); err != nil {
+				o.logger.Error(err, "applying deferred updates after a failed monitor request")
+			}
+		}()
+	}
+
 	var lastTransactionFound bool
 	switch monitor.Method {
 	case ovsdb.MonitorRPC:
@@ -1066,27 +1089,34 @@ func (o *ovsdbClient) monitor(ctx context.Context, cookie MonitorCookie, reconne
 	}
 
 	// populate any deferred updates
+	return o.applyDeferredUpdates(db, cookie.ID)
+}
+
+// applyDeferredUpdates stops deferring updates and applies those deferred so
+// far. Must be called with a lock on cacheMutex (and on monitorsMutex if
+// cookieID names the monitor whose last transaction id is to be updated).
+func (o *ovsdbClient) applyDeferredUpdates(db *database, cookieID string) error {
 	db.deferUpdates = false
-	for _, update := range db.deferredUpdates {
+	deferred := db.deferredUpdates
+	// clear deferred updates for next time
+	db.deferredUpdates = make([]*bufferedUpdate, 0)
+	for _, update := range deferred {
 		if update.updates != nil {
-			if err = db.cache.Populate(*update.updates); err != nil {
+			if err := db.cache.Populate(*update.updates); err != nil {
 				return err
 			}
 		}
 
 		if update.updates2 != nil {
-			if err = db.cache.Populate2(*update.updates2); err != nil {
+			if err := db.cache.Populate2(*update.updates2); err != nil {
 				return err
 			}
 		}
-		if len(update.lastTxnID) > 0 {
-			db.monitors[cookie.ID].LastTransactionID = update.lastTxnID
+		if len(update.lastTxnID) > 0 && cookieID != "" {
+			db.monitors[cookieID].LastTransactionID = update.lastTxnID
 		}
 	}
-	// clear deferred updates for next time
-	db.deferredUpdates = make([]*bufferedUpdate, 0)
-
-	return err
+	return nil
 }
 
 // Echo tests the liveness of the OVSDB connetion
